@@ -6,8 +6,11 @@ import sys
 import time
 
 VERIF = os.path.dirname(os.path.dirname(os.path.abspath(__file__)))
-EVIDENCE = os.path.join(VERIF, "evidence")
-REPLAYS = os.path.join(VERIF, "replays")
+# VERIF_OUT redirects evidence and replays (used by tools/seeded.py so that drills on a scratch worktree
+# never overwrite the evidence of runs against /repo); registered commands never set it
+_OUT = os.environ.get("VERIF_OUT") or VERIF
+EVIDENCE = os.path.join(_OUT, "evidence")
+REPLAYS = os.path.join(_OUT, "replays")
 KF_PATH = os.path.join(VERIF, "known_findings.json")
 
 
